@@ -103,6 +103,13 @@ case("F29 nancumsum of a lone NaN, every position its own group", lambda: groupb
 # F30
 case("F30 negative quantile level", lambda: groupby_reduce(np.array([1.0, 5, 2, 9, 4, 7]), np.array([0, 0, 1, 1, 2, 2]), func="quantile", finalize_kwargs={"q": -0.5}, engine="flox")[0].tolist(), lambda r: False, refusal_ok=True)
 
+# F31
+case("F31 ffill over a dask array with a zero-length chunk", lambda: np.asarray(groupby_scan(da.from_array(np.array([1.0, np.nan, 3.0]), chunks=((2, 0, 1),)), np.array([0, 0, 0]), func="ffill")).tolist(), lambda r: r == [1.0, 1.0, 3.0])
+# F32
+case("F32 groupby_scan with dtype given as a string", lambda: groupby_scan(np.array([1.0, np.nan, 3.0]), np.array([0, 0, 0]), func="ffill", dtype="float32").tolist(), lambda r: r == [1.0, 1.0, 3.0])
+# F33
+case("F33 method=None with reindex=True, one group per block", lambda: groupby_reduce(da.from_array(np.arange(12.), chunks=2), np.repeat(np.arange(6), 2), func="sum", reindex=True)[0].compute().tolist(), lambda r: r == [1.0, 5.0, 9.0, 13.0, 17.0, 21.0])
+
 bad = 0
 for name, verdict in results:
     print(f"{name:55s} {verdict}")
